@@ -61,15 +61,26 @@ var props = []Prop{
 		},
 	},
 	{
-		ID:    "C16",
-		Level: "exploration",
-		Rule: "Three seeded scenario families on a simulated disk. consistent: acyclic module layouts (with/without go.mod, nested go.mod, 2-8 files in nested directories, equal basenames with different contents, data files with implicit/explicit decoders, the same file under several spellings, diamonds; main named absolutely or relative to a real cwd inside/outside the tree): the result must equal the value of the files the documented rules resolve to (built by inlining, data files evaluated alone on a fresh context) and every content read in the operation log must lie below the importing script's module root. adversarial: one import string built from . .. ... whitespace, tabs, newlines, absolute-looking tails and secret paths: only confinement of content reads and absence of secret markers in value/error are judged. cyclic: self/2..5-cycles through several spellings plus acyclic controls, evaluated inside a synctest bubble: a quiescent bubble with the task unfinished is a hang verdict, no wall clock involved. Non-trivial = >=2 content reads (>=2 files for cyclic); distinct = distinct (family/class, reads, outcome).",
+		ID:         "C16",
+		Level:      "exploration",
+		Rule:       "Three seeded scenario families on a simulated disk. consistent: acyclic module layouts (with/without go.mod, nested go.mod, 2-8 files in nested directories, equal basenames with different contents, data files with implicit/explicit decoders, the same file under several spellings, diamonds; main named absolutely or relative to a real cwd inside/outside the tree): the result must equal the value of the files the documented rules resolve to (built by inlining, data files evaluated alone on a fresh context) and every content read in the operation log must lie below the importing script's module root. adversarial: one import string built from . .. ... whitespace, tabs, newlines, absolute-looking tails and secret paths: only confinement of content reads and absence of secret markers in value/error are judged. cyclic: self/2..5-cycles through several spellings plus acyclic controls, evaluated inside a synctest bubble: a quiescent bubble with the task unfinished is a hang verdict, no wall clock involved. Non-trivial = >=2 content reads (>=2 files for cyclic); distinct = distinct (family/class, reads, outcome).",
 		Components: map[string][]string{"real": {"syntax.Compile/EvaluateExpr, compilePackage, importLocalFile, findRootFromModule, fileValue", "pkg/importcache, pkg/ctxrootcache, tools.FileExists"}, "stub": {"disk: aaverif/simfs", "process cwd: real empty directories below the worker's cwd, entered with os.Chdir"}},
 		Assume:     []string{"the disk is not mutated during a run (the property does not promise snapshot isolation)", "Stat of <ancestor>/go.mod while walking up is the documented root search and is legal", "remote and Go-module imports are out of scope"},
 		Batches: []Batch{
 			{Name: "consistent", Engine: "imports", Quick: 2000, Thorough: 200000, Knobs: map[string]string{"mode": "consistent"}, Timeout: 60 * time.Second},
 			{Name: "adversarial", Engine: "imports", Quick: 2500, Thorough: 300000, Knobs: map[string]string{"mode": "adversarial"}, Timeout: 60 * time.Second},
 			{Name: "cyclic", Engine: "imports", Quick: 600, Thorough: 40000, Knobs: map[string]string{"mode": "cyclic"}, Timeout: 60 * time.Second},
+		},
+	},
+	{
+		ID:         "C11",
+		Level:      "exploration",
+		Rule:       "sched: 2-5 tasks (real goroutines in a synctest bubble) evaluate main files of one generated module tree over ONE shared import cache, root cache and simulated disk; every disk operation and (through the repo's guarded hook) every wake-up from the import cache's condition variable parks the task; after quiescence the seeded scheduler releases exactly one parked task, optionally failing its pending open/read/stat with EIO (once or persistently). Oracles: no deadlock (quiescent, nothing parked, tasks unfinished), every task's value equals its solo value, an error only if a file of its import closure received a fault, no panic. race: see batch rule in evidence. Non-trivial = >=6 scheduling steps; distinct = distinct (closure sizes, per-task operation counts, faulted paths).",
+		Components: map[string][]string{"real": {"syntax.Compile/EvaluateExpr, syntax/import.go", "pkg/importcache (built with -tags verif: one seam after cond.Wait)", "pkg/ctxrootcache", "rel"}, "stub": {"disk: aaverif/simfs", "scheduler: aaverif/eng/sched decides which parked task runs next"}},
+		Assume:     []string{"segments between two park points touch only mutex-protected cache state, so the state at quiescence does not depend on how the Go runtime orders overlapping segments (standing check: determinism self-test)", "a silently truncated read is never injected"},
+		Batches: []Batch{
+			{Name: "sched-nofault", Engine: "sched", Bin: "worker-hook", Quick: 1500, Thorough: 150000, Knobs: map[string]string{"faults": "off"}, Timeout: 60 * time.Second},
+			{Name: "sched-faults", Engine: "sched", Bin: "worker-hook", Quick: 2500, Thorough: 250000, Knobs: map[string]string{"faults": "on"}, Timeout: 60 * time.Second},
 		},
 	},
 }
